@@ -106,6 +106,13 @@ def generate(tier, rng):
     for _ in range(3000 if not thorough else 400000):
         op = rng.choice(OPS)
         yield f'{op} {hexs(rbytes(rng, rng.randrange(1, 14)))}'
+    # long text whose multi-byte characters straddle the copy-buffer boundaries of the standard library (32 KiB, 512, 4096), every reader kind
+    for pad in (32767, 32766, 32768, 65535, 511, 4095):
+        for ch in ('\u00fc', '\u65e5', '\U0001f600'):
+            c = b'a' * pad + ch.encode('utf-8') + b'tail'
+            for kind in ('bytes', 'buffer', 'plain', 'one', 'limited'):
+                if kind == 'one' and pad > 5000: continue
+                yield f'cbor.dec.seq {kind} t {hexs(head(3, len(c)) + c)}'
     # several decode calls on one decoder, over readers with / without ReadByte, delivering one byte per Read, size-limited:
     # values, position of the first error, and bytes taken from the underlying reader (no read-ahead past the decoded items)
     LET = {0: 'u', 2: 'b', 3: 't', 4: 'a', 5: 'm'}
@@ -115,6 +122,8 @@ def generate(tier, rng):
             mt = rng.choice([0, 2, 3, 4, 5])
             if mt in (2, 3):
                 c = bytes(rng.randrange(0x20, 0x7f) for _ in range(rng.choice([0, 1, 3, 23, 24, 30, 300, 5000])))
+                if rng.random() < 0.5:      # multi-byte characters (2, 3, 4 bytes) anywhere in the string: a reader may deliver them in pieces
+                    c = ''.join(rng.choice(['a', 'z', '\u00fc', '\u00e9', '\u65e5', '\ufffd', '\ufeff', '\U0001f600', '\u212a']) for _ in range(rng.choice([1, 2, 5, 24, 200]))).encode('utf-8')
                 items.append((mt, head(mt, len(c)) + c))
             else:
                 items.append((mt, head(mt, rng.getrandbits(rng.choice([3, 8, 16, 32, 64])))))
